@@ -46,6 +46,7 @@ type RunSpec struct {
 	Salt    map[string]string    // group name -> stream salt (metamorphic variants)
 	AllProps bool                // report violations of every property, not just Prop
 	KeepScans bool
+	RecordKeys bool
 	onCfg    func(*RunCfg)
 }
 
@@ -66,6 +67,7 @@ type RunResult struct {
 	Scanlog    []*ScanRecord
 	Calm       bool
 	Summary    string
+	CallKeys   []string
 }
 
 type simBuilder struct {
@@ -523,6 +525,7 @@ func runInBubble(spec RunSpec, stats *Stats, res *RunResult) {
 	for _, g := range w.groups {
 		g.salt = spec.Salt[g.name] + cfg.saltHook[g.name]
 	}
+	w.recordKeys = spec.RecordKeys
 	s := &Supervisor{w: w, spec: spec, cfg: cfg, stats: stats, res: res}
 	s.text = cfg.ConfigText()
 	res.ConfigText = s.text
@@ -541,6 +544,7 @@ func runInBubble(spec RunSpec, stats *Stats, res *RunResult) {
 		res.LogHash = w.LogHash()
 		res.Log = w.logLines
 		res.Streams = ch.Recorded()
+		res.CallKeys = w.callKeys
 	}()
 	for s.life = 0; s.life < cfg.MaxLives && s.scans < cfg.Horizon && len(res.Violations) == 0; s.life++ {
 		if s.life > 0 {
@@ -559,6 +563,11 @@ func runInBubble(spec RunSpec, stats *Stats, res *RunResult) {
 			continue
 		}
 		next := time.Now()
+		if !times.Chance(0.2) {
+			// start on a whole second: taint stamps are whole seconds, so only then can a
+			// later scan land exactly on a grace-period or cool-down expiry
+			next = next.Truncate(time.Second).Add(time.Second)
+		}
 		for s.scans < cfg.Horizon && len(res.Violations) == 0 {
 			if d := time.Until(next); d > 0 {
 				time.Sleep(d)
